@@ -171,6 +171,35 @@ let () =
       let toks = List.filter (fun s -> s <> "") (String.split_on_char ' ' line) in
       match toks with
       | "PARAMS" :: t :: m :: _ -> thr := int_of_string t; maxbuf := int_of_string m
+      | "UFM" :: id :: n :: _m :: rest ->
+          (* sequential DisjointSets model: words (rank, parent) after uniting the pairs in order *)
+          let n = int_of_string n in
+          let rec prs = function a :: b :: r -> (nat_of_int (int_of_string a), nat_of_int (int_of_string b)) :: prs r | _ -> [] in
+          (match uf_run_seq (nat_of_int n) (prs rest) with
+           | Some st -> Printf.printf "A %s%s\n" id (String.concat "" (List.map (fun (r, p) -> Printf.sprintf " %d %d" (int_of_nat r) (int_of_nat p)) st))
+           | None -> Printf.printf "A %s NONE\n" id)
+      | "HTM" :: id :: m :: step :: nk :: rest ->
+          (* keys are dense indices; every key comes with its masked hash; then ARR = the implementation's final key array *)
+          let m = int_of_string m and step = int_of_string step and nk = int_of_string nk in
+          let a = Array.of_list rest in
+          let ks = List.init nk (fun i -> int_of_string a.(2 * i)) in
+          let hs = Hashtbl.create 16 in
+          List.iteri (fun i k -> Hashtbl.replace hs k (int_of_string a.(2 * i + 1))) ks;
+          let h k = nat_of_int (try Hashtbl.find hs (int_of_nat k) with Not_found -> 0) in
+          let impl = List.init m (fun i -> let v = int_of_string a.(2 * nk + 1 + i) in if v < 0 then None else Some (nat_of_int v)) in
+          let empty = List.init m (fun _ -> None) in
+          let show t = String.concat "" (List.map (function None -> " -1" | Some k -> " " ^ string_of_int (int_of_nat k)) t) in
+          (match ht_run (nat_of_int m) h (nat_of_int step) (nat_of_int (m + 1)) empty O (nats ks) with
+           | Some (t, u) -> Printf.printf "HM %s %d%s\n" id (int_of_nat u) (show t)
+           | None -> Printf.printf "HM %s NONE\n" id);
+          (* the open-addressing invariant on the implementation's array: every stored key is found at its slot *)
+          let ok = ref true in
+          List.iteri (fun s v -> match v with
+            | None -> ()
+            | Some k -> (match ht_find (nat_of_int m) h (nat_of_int step) (nat_of_int (m + 1)) impl k O with
+                         | Some s' when int_of_nat s' = s -> ()
+                         | _ -> ok := false)) impl;
+          Printf.printf "HC %s %d\n" id (if !ok then 1 else 0)
       | "CASE" :: _ -> cur := Some toks; recs := []
       | "SCHED" :: _id :: r -> recs := parse_record r :: !recs
       | "END" :: _ ->
